@@ -127,6 +127,10 @@ func runHistProperty(t *testing.T, prop string, quick, thorough int) {
 			hist.RunHistoryOpt(t, col, prop, p, seed, func(w *hist.World) { w.StreamExtends = true }, nil)
 			continue
 		}
+		if prop == "C03" {
+			hist.RunHistoryOpt(t, col, prop, p, seed, func(w *hist.World) { w.StreamAckFaultPct = 30 }, nil)
+			continue
+		}
 		if prop == "C13" || prop == "C05" {
 			hist.RunHistoryOpt(t, col, prop, p, seed, func(w *hist.World) { w.SeekRows = true }, nil)
 			continue
